@@ -106,8 +106,11 @@ def respOfL (st : St) (eng : String) (j : Json) : String × Nat :=
       let tok := if jHas j "hb" then
           headerDecision Facts.C04.policy e.aud st.keys st.now ((jStrs j "hb").map unhexStr) analysisOf
         else tokenDecision Facts.C04.policy e.aud st.keys st.now (bytesOf (jStr j "hdr")) (parseAnalysis (jObj j "tok"))
-      let out := serveConnL authOK Facts.C04.authSelector Facts.C04.authPath e.auth { on := e.lim, tbl := Facts.C04.limiterTable }
-        regsHere tok (jStr j "m") (unhexStr (jStr j "t")) b
+      let out := if jHas j "hb" then
+          serveConnH Facts.C04.policy e.aud st.keys st.now analysisOf authOK Facts.C04.authSelector Facts.C04.authPath e.auth
+            { on := e.lim, tbl := Facts.C04.limiterTable } regsHere ((jStrs j "hb").map unhexStr) (jStr j "m") (unhexStr (jStr j "t")) b
+        else serveConnL authOK Facts.C04.authSelector Facts.C04.authPath e.auth { on := e.lim, tbl := Facts.C04.limiterTable }
+          regsHere tok (jStr j "m") (unhexStr (jStr j "t")) b
       (showResp out.1, out.2)
 
 /-- the in-process limiter leg: the wiring decision, then the skipper + bucket on a sequence of (method, c.Path()) calls -/
